@@ -229,6 +229,7 @@ type Manager struct {
 
 	// Public IP pool management
 	pool         []PoolEntry
+	poolBlocks   [][]bool // per pool entry: which block indices are in use (guarded by poolMu)
 	poolMu       sync.RWMutex
 	allocations  map[uint32]*Allocation // private IP -> allocation
 	allocationMu sync.RWMutex
@@ -332,6 +333,7 @@ func (m *Manager) AddPublicIP(ip net.IP) error {
 	}
 
 	m.pool = append(m.pool, entry)
+	m.poolBlocks = append(m.poolBlocks, make([]bool, maxSubs))
 
 	// Add to hairpin detection map if enabled
 	if m.hairpinIPs != nil && m.config.EnableHairpin {
@@ -431,8 +433,19 @@ func (m *Manager) AllocateNAT(privateIP net.IP) (*Allocation, error) {
 		return nil, fmt.Errorf("NAT pool exhausted: no available public IPs")
 	}
 
-	// Calculate port range for this subscriber (deterministic based on subscriber count)
-	portStart := uint16(m.portRangeStart + (selectedPool.Subscribers * m.portsPerSubscriber))
+	// Calculate port range for this subscriber: lowest block index not in use on this
+	// public IP (the subscriber count is not a free index once a lower block was released)
+	blockIndex := -1
+	for i, used := range m.poolBlocks[poolIndex] {
+		if !used {
+			blockIndex = i
+			break
+		}
+	}
+	if blockIndex < 0 {
+		return nil, fmt.Errorf("NAT pool exhausted: no free port block on %s", selectedPool.PublicIP)
+	}
+	portStart := uint16(m.portRangeStart + (blockIndex * m.portsPerSubscriber))
 	portEnd := portStart + uint16(m.portsPerSubscriber) - 1
 
 	// Get or create subscriber ID
@@ -478,6 +491,7 @@ func (m *Manager) AllocateNAT(privateIP net.IP) (*Allocation, error) {
 	m.allocationMu.Unlock()
 
 	selectedPool.Subscribers++
+	m.poolBlocks[poolIndex][blockIndex] = true
 
 	// Log allocation event
 	if m.natLogger != nil {
@@ -524,6 +538,9 @@ func (m *Manager) DeallocateNAT(privateIP net.IP) error {
 	m.poolMu.Lock()
 	if allocation.PoolIndex < len(m.pool) {
 		m.pool[allocation.PoolIndex].Subscribers--
+		if idx := (int(allocation.PortStart) - m.portRangeStart) / m.portsPerSubscriber; idx >= 0 && idx < len(m.poolBlocks[allocation.PoolIndex]) {
+			m.poolBlocks[allocation.PoolIndex][idx] = false
+		}
 	}
 	m.poolMu.Unlock()
 
